@@ -20,14 +20,23 @@ pub(crate) fn choose_fresh_global_variables(program: &asp::Program) -> Vec<Strin
         }
     }
     let mut max_taken_var = 0;
+    let mut taken_numbers = IndexSet::new();
     let taken_vars = program.variables();
     for var in taken_vars {
         if let Some(caps) = RE.captures(&var.0) {
             let taken: usize = (caps["number"]).parse().unwrap_or(0);
+            taken_numbers.insert(taken);
             if taken > max_taken_var {
                 max_taken_var = taken;
             }
         }
+    }
+    // A variable such as `V18446744073709551615` leaves no room above the largest taken
+    // number: use the first block of `max_arity` untaken numbers instead of overflowing.
+    if max_taken_var.checked_add(max_arity).is_none() {
+        max_taken_var = (0..)
+            .find(|base| (1..=max_arity).all(|i| !taken_numbers.contains(&(base + i))))
+            .unwrap();
     }
     let mut globals = Vec::<String>::new();
     for i in 1..max_arity + 1 {
